@@ -63,6 +63,12 @@ Theorem C21_rewrite_preserves :
   forall env, sink_vals env a' = sink_vals env a.
 Proof. exact rewrite_preserves. Qed.
 
+(* ... and rewrite does return on every topologically ordered AIG (none of its `expect`s / index
+   accesses can fail) *)
+Theorem C21_rewrite_total :
+  forall library a, lib_ok library -> wf_aig a = true -> exists a', rewrite library a = Some a'.
+Proof. exact rewrite_total. Qed.
+
 (* the cut-replacement step on its own: every candidate kept by try_library_rewrite evaluates to
    the old root in the new graph *)
 Theorem C21_cut_replacement :
@@ -103,4 +109,5 @@ Print Assumptions C21_canonical_class_invariant.
 Print Assumptions C21_transform_pattern_correct.
 Print Assumptions C21_library_sound.
 Print Assumptions C21_rewrite_preserves.
+Print Assumptions C21_rewrite_total.
 Print Assumptions C21_cut_replacement.
